@@ -1,8 +1,12 @@
 import ServlinVerif.Props.C18
 import ServlinVerif.Props.CodeTables
+import ServlinVerif.Props.C18World
 open Servlin.C18
 #print axioms C18_tags
 #print axioms C18_one_event
 #print axioms C18_wrap
 #print axioms foldl_inv
 #print axioms Servlin.CodeTables.tagOrder_matches
+#print axioms Servlin.C18W.C18_exactly_once
+#print axioms Servlin.C18W.C18_current_sink
+#print axioms Servlin.C18W.C18_thread_isolation
